@@ -1,6 +1,6 @@
 // Box recipes of the C02 "api" leg: for every public box constructor (and the public struct literals the task names)
 // one builder that turns a boxR into a library box, and one generator that draws legal arguments for it.
-package c02
+package apigen
 
 import (
 	"fmt"
@@ -252,7 +252,7 @@ func init() {
 		})
 	reg("elst", func(t *rapid.T, _ int) boxR {
 		r := boxR{N: []int64{gBit(t, "version")}}
-		n := rapid.IntRange(0, 3).Draw(t, "n")
+		n := tableN(t, "n", 3)
 		r.N = append(r.N, int64(n))
 		for i := 0; i < n; i++ {
 			r.N = append(r.N, gU64(t, "segDur"), rapid.OneOf(rapid.Just(int64(-1)), rapid.Int64Range(0, 100000), rapid.Int64()).Draw(t, "mediaTime"),
@@ -328,7 +328,7 @@ func init() {
 	// ---- sample groups, sub-samples, auxiliary information
 	reg("sbgp", func(t *rapid.T, _ int) boxR {
 		r := boxR{S: []string{rapid.SampledFrom([]string{"seig", "roll", "rap ", "sync"}).Draw(t, "type")}, N: []int64{gBit(t, "version"), gU32(t, "param")}}
-		n := rapid.IntRange(0, 4).Draw(t, "n")
+		n := tableN(t, "n", 4)
 		r.N = append(r.N, int64(n))
 		for i := 0; i < n; i++ {
 			r.N = append(r.N, gU32(t, "count"), int64(rapid.SampledFrom([]uint32{0, 1, 2, 65537, 65538}).Draw(t, "index")))
@@ -396,7 +396,7 @@ func init() {
 	})
 	reg("subs", func(t *rapid.T, _ int) boxR {
 		r := boxR{N: []int64{gBit(t, "version"), int64(rapid.IntRange(0, 3).Draw(t, "flags"))}}
-		n := rapid.IntRange(0, 3).Draw(t, "n")
+		n := tableN(t, "n", 3)
 		r.N = append(r.N, int64(n))
 		for i := 0; i < n; i++ {
 			m := rapid.IntRange(0, 3).Draw(t, "nSub")
@@ -564,7 +564,7 @@ func init() {
 		func(r *boxR) (mp4.Box, error) { return mp4.NewTfxdBox(uint64(r.n(0)), uint64(r.n(1))), nil })
 	reg("tfra", func(t *rapid.T, _ int) boxR {
 		r := boxR{N: []int64{gBit(t, "version"), gU32(t, "track"), int64(rapid.IntRange(0, 3).Draw(t, "lTraf")), int64(rapid.IntRange(0, 3).Draw(t, "lTrun")), int64(rapid.IntRange(0, 3).Draw(t, "lSample"))}}
-		n := rapid.IntRange(0, 3).Draw(t, "n")
+		n := tableN(t, "n", 3)
 		r.N = append(r.N, int64(n))
 		for i := 0; i < n; i++ {
 			r.N = append(r.N, gU64(t, "time"), gU64(t, "moofOffset"), gU8(t, "traf"), gU8(t, "trun"), gU8(t, "sample"))
@@ -724,7 +724,7 @@ func init() {
 		})
 	// ---- sample table
 	reg("stts", func(t *rapid.T, _ int) boxR {
-		n := rapid.IntRange(0, 4).Draw(t, "n")
+		n := tableN(t, "n", 4)
 		r := boxR{N: []int64{int64(n)}}
 		for i := 0; i < n; i++ {
 			r.N = append(r.N, gU32(t, "count"), gU32(t, "delta"))
@@ -739,7 +739,7 @@ func init() {
 		return b, nil
 	})
 	reg("ctts", func(t *rapid.T, _ int) boxR {
-		n := rapid.IntRange(0, 4).Draw(t, "n")
+		n := tableN(t, "n", 4)
 		r := boxR{N: []int64{gBit(t, "version"), int64(n)}}
 		for i := 0; i < n; i++ {
 			r.N = append(r.N, int64(rapid.Uint32Range(0, 1000).Draw(t, "count")), gI32(t, "offset"))
@@ -755,7 +755,7 @@ func init() {
 		return b, nil
 	})
 	reg("stsc", func(t *rapid.T, _ int) boxR {
-		n := rapid.IntRange(0, 4).Draw(t, "n")
+		n := tableN(t, "n", 4)
 		r := boxR{N: []int64{int64(n)}}
 		chunk := int64(1)
 		for i := 0; i < n; i++ {
